@@ -777,6 +777,36 @@ class SymPrinter:
                 if pc2 is not None:
                     res.append((C(needle[1] in bits), env, out, pc2))
             return res
+        if name == "core::slice::<impl [T]>::contains" and a0[0] == "S" and (a0[2].startswith("[") or a0[2].startswith("alloc::vec::Vec<")):
+            # exists i: list[i] == needle, over the abstract lengths {0, 1, >=2 (first two elements)}
+            base, off = self.slice_base(a0[1])
+            ety = self.elem_ty(a0[2])
+            needle = self.deref(env, args[1])
+            res = []
+            lo, hi = self.len_bounds(pc, base)
+            for n in range(lo, hi + 1):
+                pc2 = pc
+                if n > 0:
+                    pc2 = self.assume(pc2, ("len>", base, n - 1), True)
+                if pc2 is not None and n < 2:
+                    pc2 = self.assume(pc2, ("len>", base, n), False)
+                if pc2 is None:
+                    continue
+                states = [pc2]
+                for i in range(off, n):
+                    nxt = []
+                    for q in states:
+                        atom = ("cmp", "Eq", self.key(S(("elem", base, i), ety)), self.key(needle))
+                        qt = self.assume(q, atom, True)
+                        if qt is not None:
+                            res.append((C(True), env, out, qt))
+                        qf = self.assume(q, atom, False)
+                        if qf is not None:
+                            nxt.append(qf)
+                    states = nxt
+                for q in states:
+                    res.append((C(False), env, out, q))
+            return res
         if decl == "core::iter::traits::iterator::Iterator::enumerate" and a0[0] == "iterc":
             return one(("iterc", tuple(("tup", (C(i), x)) for i, x in enumerate(a0[1]))))
         if decl in ("core::iter::traits::iterator::Iterator::filter", "core::iter::traits::iterator::Iterator::map") and a0[0] == "iterc":
